@@ -665,3 +665,36 @@ package core
 //@   assert[C07+C08.ix_get_purges_through_expire] at "s.expire(ctx, id, fact, 0)": true
 //@ func (*LinearState).get
 //@   assert[C07+C08.lin_get_purges_through_expire] at "s.expire(ctx, id, rf.M, 0)": true
+
+// ---- C04: one execution per rule, binding set and action -------------------------------------
+//@ ghost actionRuns int
+//@ ghost lastDone *ExecRuleAction
+//@ func (*ExecRuleAction).Do
+//@   ghost-ensures actionRuns == old(actionRuns) + 1 && lastDone == w
+//@   also-modifies actionRuns, lastDone
+//@ funcval (*Location).ExecAction.f
+//@   modifies allbut(LK:)
+//@ func (*Location).ExecAction
+//@   ensures[C04.action_thunk_runs_once] result1 == nil ==> calls(f) == old(calls(f)) + 1
+//@   ensures[C04.action_thunk_at_most_once] calls(f) <= old(calls(f)) + 1
+
+//@ func (*FindRules).Do
+//@   assert[C04.child_carries_its_rule_id] at "append(w.Children, child)": rule.Id == id
+//@   assert[C04.child_has_bindings]        at "append(w.Children, child)": len(bss) > 0 && (rule.When == nil ==> len(bss) == 1 && bss[0] != nil)
+
+//@ func (*EvalRule).Do
+//@   ensures[C04.one_condition_node_per_binding_set] len(w.Children) == len(w.Bindingss)
+//@   loop 1: invariant[C04.evalrule_loop] len(w.Children) == rangeindex + 1 && len(w.Bindingss) == old(len(w.Bindingss))
+
+//@ func (*EvalRuleCondition).Do
+//@   assert[C04.event_bound_iff_absent]    at "bs[\"?event\"]": !has(bs, "?event")
+//@   assert[C04.location_bound_iff_absent] at "bs[\"?location\"]": !has(bs, "?location")
+//@   assert[C04.ruleid_bound_iff_absent]   at "bs[\"?ruleId\"]": !has(bs, "?ruleId")
+
+//@ func (*Location).WorkWalk
+//@   assert[C04.serial_value_only_when_complete] at "append(w.Values, era.Value)": era.Disposition == Complete
+//@   assert[C04.goroutine_takes_its_action_as_argument] at "func(era *ExecRuleAction)": true
+//@ func (*Location).WorkWalk$1
+//@   ensures[C04.concurrent_action_at_most_once] actionRuns <= old(actionRuns) + 1
+//@   ensures[C04.concurrent_runs_own_action]     actionRuns == old(actionRuns) + 1 ==> lastDone == era
+//@   assert[C04.concurrent_value_only_when_complete] at "append(w.Values, era.Value)": era.Disposition == Complete
